@@ -43,5 +43,6 @@ def run(ctx):
     lib_kind3.module_owner_refs(ctx, P)
     lib_kind.py_searchsorted(ctx, py, [("trees", "TreeSequence.site")])
     lib_module.name_agreement(ctx, P, classes=lib_module.TABLE_CLASSES + ("TableCollection",), floor=150)
+    lib_module.module_every_path(ctx, P, classes=lib_module.TABLE_CLASSES + ("TableCollection",), floor=40)
     lib_py.facade_names(ctx, py, P, classes=tuple(("tables", c) for c in lib_py.FACADES["tables"]), floor=60)
     lib_mem.c_lints(ctx, ctx.program(), scopes.lib_scope("C13"))
